@@ -33,6 +33,8 @@ func layoutZoo() map[string]string {
 
 func baseZoo() map[string]string {
 	return map[string]string{
+		// trailing block comments in aligned blocks, in a file whose import declaration has no parentheses
+		"aligned-trailing-block-comments": "package gen\n\nimport \"fmt\"\n\nconst (\n\tDebug = iota /* verbose */\n\tInfo /* default */\n\tWarning\n\tError /* last */\n)\n\ntype S struct {\n\tA int `json:\"a\"` /* first */\n\tBcd string /* second */\n\tfmt.Stringer /* embedded */\n\tlast bool\n}\n\nvar (\n\tx, y = 1, 2 /* pair */\n\tlonger int /* typed */\n)\n\nvar _ = fmt.Sprint\n",
 		// comments and line breaks inside package-qualified identifiers
 		"qualified-identifier-comments": "package p\n\nimport (\n\t\"fmt\"\n\t\"os\"\n)\n\nfunc f() {\n\tfmt. // why\n\t\tPrintln(\"a\")\n\tfmt.\n\t\t// own line\n\t\tPrintln(\"b\")\n\tfmt. /* blk */ Println(os. // x\n\t\t\t\tArgs)\n\tfmt.\n\t\tPrintln(os.\n\t\t\tArgs, // y\n\t\t)\n\t_ = []interface{}{\n\t\t// before\n\t\tos.Stdin, // after\n\t\tos. /* in */ Stdout,\n\t}\n}\n",
 		"select-hanging": `package p
